@@ -43,7 +43,7 @@ def BOUNDS(tier):
 def REQUIRED_COVER(tier):
     return {'kind:int', 'kind:ext_in', 'kind:ext_out', 'init:none', 'init:all5', 'init:3refs', 'extra:2', 'body:inline', 'body:ref', 'init:inline', 'init:ref', 'placement:alt',
             'anycast', 'wrapper:StateInit', 'wrapper:CurrencyCollection', 'wrapper:WalletV3Data', 'wrapper:WalletV4Data', 'wrapper:NftItemData', 'wrapper:HashUpdate',
-            'wrapper:TickTock', 'wrapper:AccountStatus', 'tight:refs', 'isolation'}
+            'wrapper:TickTock', 'wrapper:AccountStatus', 'tight:refs', 'isolation', 'edit-history'}
 
 
 # ------------------------------------------------------------------------------------------ family
@@ -557,6 +557,145 @@ def case_isolation(rec):
     rec.sample({'isolation': 'a = CurrencyCollection(5); b = CurrencyCollection(7); a.other.dict[3] = 1000; b.serialize() unchanged'})
 
 
+# ------------------------------------------------------------------------------------------ edit histories (explorer S)
+# The value objects are plain mutable Python objects: callers build one, serialise it, change a field, serialise again.
+# State = the event history, replayed on FRESH objects; after every observing event the cell must be the block.tlb encoding
+# of the object's CURRENT fields (nothing remembered from an earlier serialisation).
+def _edit_events():
+    ev = [('ser_msg',), ('ser_init',), ('ser_value',), ('parse_msg',)]
+    ev += [('init', 'split_depth', v) for v in (None, 0, 31)]
+    ev += [('init', 'special', v) for v in (None, [True, False], [False, True])]
+    ev += [('init', 'code', v) for v in (None, 0, 1)]
+    ev += [('init', 'data', v) for v in (None, 1)]
+    ev += [('init', 'library', v) for v in (None, 2)]
+    ev += [('tick', True), ('tick', False)]                      # in-place edit of the TickTock object held by the init
+    ev += [('grams', 0), ('grams', (1 << 120) - 1)]
+    ev += [('extra_put', 9, 5), ('extra_put', 9, 300), ('extra_del', 9), ('extra_new',)]
+    ev += [('info', 'bounce', 0), ('info', 'ihr_fee', 255), ('info', 'created_lt', 1 << 63), ('dest', 1), ('src_anycast',)]
+    ev += [('body', 0, 0), ('body', 700, 1), ('msg_init', False), ('msg_init', True)]
+    return ev
+
+
+EDIT_EVENTS = _edit_events()
+OBSERVERS = {'ser_msg', 'ser_init', 'ser_value', 'parse_msg'}
+
+
+def case_edit_history(rec, hist):
+    """hist: list of indexes into EDIT_EVENTS"""
+    from pytoniq_core.tlb.transaction import MessageAny
+    from pytoniq_core.tlb.account import TickTock
+    from pytoniq_core.tlb.block import ExtraCurrencyCollection
+    seed = rec.seed
+    h = dict(headers()[0])
+    h['extra'] = {}
+    h['f'] = list(h['f'])
+    i = dict(inits()[1 + 4 + 2])            # split_depth 31, special (False, True), code: present from the start
+    i['special'] = list(i['special'])
+    body = body_cell(9, 1, seed)
+    msg = lib_message(h, i, body, seed)
+    init = msg.init
+    has_init = True
+    args = {'hist': list(hist)}
+    names = [EDIT_EVENTS[k] for k in hist]
+    rec.case('edit-history')
+    rec.state(('edit', tuple(hist)))
+    rec.nontriv(('edit', tuple(hist)))
+    for step, e in enumerate(names):
+        rec.trans()
+        what = f'history {names[:step + 1]}'
+        try:
+            if e[0] == 'init':
+                i[e[1]] = e[2] if e[1] != 'special' or e[2] is None else list(e[2])
+                if e[1] == 'special':
+                    init.special = None if e[2] is None else TickTock(*e[2])
+                elif e[1] == 'split_depth':
+                    init.split_depth = e[2]
+                else:
+                    setattr(init, e[1], None if e[2] is None else cell_to_lib(CODE_CELLS[e[2]]))
+            elif e[0] == 'tick':
+                if init.special is None:
+                    continue
+                init.special.tick = e[1]
+                i['special'][0] = e[1]
+            elif e[0] == 'grams':
+                msg.info.value.grams = e[1]
+                h['grams'] = e[1]
+            elif e[0] == 'extra_put':
+                msg.info.value.other.dict[e[1]] = e[2]
+                h['extra'] = dict(h['extra'], **{str(e[1]): e[2]})
+            elif e[0] == 'extra_del':
+                msg.info.value.other.dict.pop(e[1], None)
+                h['extra'] = {k: v for k, v in h['extra'].items() if k != str(e[1])}
+            elif e[0] == 'extra_new':
+                msg.info.value.other = ExtraCurrencyCollection({3: 1})
+                h['extra'] = {'3': 1}
+            elif e[0] == 'info':
+                setattr(msg.info, e[1], bool(e[2]) if e[1] == 'bounce' else e[2])
+                if e[1] == 'bounce':
+                    h['f'][1] = e[2]
+                else:
+                    h[{'ihr_fee': 'ihr', 'created_lt': 'lt'}[e[1]]] = e[2]
+            elif e[0] == 'dest':
+                msg.info.dest = lib_addr(A1, seed)
+                h['dest'] = A1
+            elif e[0] == 'src_anycast':
+                msg.info.src.set_anycast(3, 5)
+                h['src'] = [h['src'][0], h['src'][1], h['src'][2], [3, 5]]
+            elif e[0] == 'body':
+                body = body_cell(e[1], e[2], seed)
+                msg.body = cell_to_lib(body)
+            elif e[0] == 'msg_init':
+                has_init = e[1]
+                msg.init = init if has_init else None
+            elif e[0] == 'ser_init':
+                c = init.serialize()
+                rec.trace()
+                if (c.bits.to01(), tuple(r.hash for r in c.refs)) != (enc_init(i)[0], tuple(r.hash() for r in enc_init(i)[1])):
+                    rec.violation('edit:StateInit', f'{what}: StateInit.serialize() is not the encoding of the object\'s current fields {lm_init_spec(i)}', 'case_edit_history', args)
+                    return
+            elif e[0] == 'ser_value':
+                c = msg.info.value.serialize()
+                rec.trace()
+                eb, er = enc_extra(h['extra'])
+                if (c.bits.to01(), tuple(r.hash for r in c.refs)) != (RB.coins(h['grams']) + eb, tuple(r.hash() for r in er)):
+                    rec.violation('edit:CurrencyCollection', f'{what}: CurrencyCollection.serialize() is not the encoding of its current grams / extra currencies', 'case_edit_history', args)
+                    return
+            else:
+                c = msg.serialize()
+                want = lm_spec(h, i if has_init else None, body, seed)
+                got, _ = lm_ref(from_lib(c))
+                rec.trace()
+                if got != want:
+                    rec.violation('edit:message', f'{what}: MessageAny.serialize() does not decode (per schema) to the message\'s current fields', 'case_edit_history', args)
+                    return
+                if e[0] == 'parse_msg':
+                    back = lm_lib(MessageAny.deserialize(c.begin_parse()))
+                    if back != want:
+                        rec.violation('edit:parse', f'{what}: parsing the serialised message gives another message', 'case_edit_history', args)
+                        return
+        except RTLB.TlbError as ex:
+            rec.violation('edit:schema', f'{what}: result does not follow the schema: {ex}', 'case_edit_history', args)
+            return
+        except Exception as ex:
+            rec.violation('edit:raises', f'{what}: {exc_name(ex)}: {ex}', 'case_edit_history', args)
+            return
+    rec.outcome('edit-ok')
+
+
+def shard_edit(rec, first, depth):
+    """every history of <= depth events that starts with event `first` and ends with an observer"""
+    n = len(EDIT_EVENTS)
+    obs = [k for k, e in enumerate(EDIT_EVENTS) if e[0] in OBSERVERS]
+    rec.covered('edit-history')
+    for d in range(1, depth + 1):
+        for mid in itertools.product(range(n), repeat=max(0, d - 2)):
+            for last in (obs if d >= 2 else [first] if first in obs else []):
+                hist = [first] + list(mid) + ([last] if d >= 2 else [])
+                case_edit_history(rec, hist)
+    if first == 0:
+        rec.sample({'edit_history': [list(EDIT_EVENTS[k]) for k in (1, 4, 1)], 'events': len(EDIT_EVENTS), 'depth': depth})
+
+
 def selftest():
     S = schema()
     h = headers()[2]
@@ -571,6 +710,8 @@ def selftest():
 
 def shards(tier, seed):
     out = [{'fn': 'case_wrappers', 'args': {}}, {'fn': 'case_isolation', 'args': {}}]
+    for first in range(len(EDIT_EVENTS)):
+        out.append({'fn': 'shard_edit', 'args': {'first': first, 'depth': 3 if tier == 'quick' else 4}, 'prio': 1})
     for hi in range(len(headers())):
         for p in range(2):
             out.append({'fn': 'shard_messages', 'args': {'hi': hi, 'part': p, 'parts': 2}, 'prio': 2})
